@@ -65,6 +65,8 @@ def sut_abstract(net):
         T[lt.traffic_light_id] = {"fp": _fp_light(lt)}
     for it in net.intersections:
         I[it.intersection_id] = {
+            # public views derived from the incoming sets: lanelet id -> incoming element / intersection
+            "map_incoming_lanelets": set(it.map_incoming_lanelets.keys()),
             "incomings": {inc.incoming_id: {"in": set(inc.incoming_lanelets), "right": set(inc.successors_right),
                                             "straight": set(inc.successors_straight), "left": set(inc.successors_left)}
                           for inc in it.incomings},
@@ -99,6 +101,9 @@ def dangling(a):
                     out.append(f"intersection {i} incoming {j}.{k} -> {x}")
         for x in it["crossings"] - L:
             out.append(f"intersection {i}.crossings -> {x}")
+        for x in it.get("map_incoming_lanelets", set()) - L:
+            out.append(f"intersection {i}.map_incoming_lanelets -> {x}")
+
     return out
 
 
@@ -147,6 +152,7 @@ class Model:
                 for k in ("in", "right", "straight", "left"):
                     inc[k].discard(x)
             it["crossings"].discard(x)
+            it["map_incoming_lanelets"].discard(x)
 
     def remove_sign(self, x):
         a = self.a
@@ -253,6 +259,19 @@ class Run(RunBase):
             raise Violation(f"C10/dangling/{self.last}",
                             f"after {self.last}: {len(d)} reference(s) to elements that are not in the network, e.g. "
                             f"{d[:4]}", {"dangling": d})
+        # the network-level public view lanelet id -> intersection must list exactly the incoming lanelets
+        view = self.net.map_inc_lanelets_to_intersections
+        all_in = set()
+        for it in got["I"].values():
+            for inc in it["incomings"].values():
+                all_in |= inc["in"]
+        bad = sorted(set(view) ^ all_in) + sorted(l for l, x in view.items()
+                                                   if not any(l in inc["in"] for inc in
+                                                              got["I"].get(x.intersection_id, {"incomings": {}})["incomings"].values()))
+        if bad:
+            raise Violation(f"C10/dangling/{self.last}",
+                            f"after {self.last}: LaneletNetwork.map_inc_lanelets_to_intersections is inconsistent with "
+                            f"the incoming sets for lanelets {bad[:5]}")
         exp = self.m.a
         if lenient_intersections:
             # which emptied incomings / intersections a cut-out drops is not prescribed: every one present must be
